@@ -279,7 +279,10 @@ class SubReal:
             s = self.subs.get(c)
             r = None if s is None else s.returncode
             rcs.append(NO_RC if r is None else r)
-        unc = len(self.env.loop.uncaught) + sum(1 for r in self.quiet.records if r.levelno >= logging.ERROR)
+        # exceptions that escaped from a callback into the event loop (asyncio's handler, or the
+        # IOLoop's "Exception in callback" log); Tornado's deliberate diagnostics are not counted
+        unc = len(self.env.loop.uncaught) + sum(1 for r in self.quiet.records if r.levelno >= logging.ERROR
+                                                and str(r.msg).startswith("Exception in callback"))
         return {"cbs": [list(self.cbs[c]) for c in range(1, self.maxc + 1)], "fut": futs, "rc": rcs,
                 "err": self.ctor_err or self.err, "unc": unc}
 
@@ -341,5 +344,203 @@ def replay_subprocess(cfg, path, maxc):
                     sig["kind_"] = s["args"][1]
                 return {"step": i, "act": s["act"], "args": s["args"], "exp": s["exp"], "obs": obs, "sig": sig}
         return None
+    finally:
+        real.close()
+
+
+# ------------------------------------------------------------------ fast path-dump reader
+# ctx.gen_paths parses every variable of every dumped state with the generic TLA value parser
+# (~5 ms per state for these specs); the histories here consist of sequences, records, strings
+# and integers only, so the `hist` / `cfg` conjuncts are rewritten to JSON and read by the C
+# json parser instead (same result: maximal paths as (extra, path) in canon form).
+
+import json as _json
+import re as _re
+
+_REC_KEY = _re.compile(r"([A-Za-z_]\w*) \|->")
+_HDR = _re.compile(r"^State \d+:.*$", _re.M)
+
+
+def _tla_to_json(text):
+    if '\\"' in text or "(" in text or ":>" in text or "{" in text:
+        raise ValueError("value outside the sequence/record/string/int fragment: %s" % text[:200])
+    t = text.replace("[", "{").replace("]", "}").replace("<<", "[").replace(">>", "]")
+    t = _REC_KEY.sub(r'"\1":', t).replace("TRUE", "true").replace("FALSE", "false")
+    return _json.loads(t)
+
+
+def _conjunct(body, var):
+    key = "/\\ %s = " % var
+    k = body.find(key)
+    if k < 0:
+        raise ValueError("no conjunct %s" % var)
+    k2 = body.find("\n/\\ ", k + 1)
+    return body[k + len(key): k2 if k2 >= 0 else len(body)]
+
+
+def gen_paths_fast(ctx, spec_dir, module, cfg, overrides=None, timeout=None, workers=None):
+    import os
+    from . import VERIF, tlc, framework
+    sd = os.path.join(VERIF, "specs", spec_dir)
+    cfgp = os.path.join(sd, cfg)
+    if overrides:
+        cfgp = framework.make_cfg(cfgp, overrides, ctx.scratch, "%s_%s" % (module, os.path.basename(cfg)))
+    dump = os.path.join(ctx.scratch, "%s_%d" % (module, len(os.listdir(ctx.scratch))))
+    r = tlc.run(sd, module, cfgp, timeout=timeout or ctx.pick(300, 1500), dump=dump, workers=workers)
+    if not r.ok:
+        raise framework.Machinery("generation spec reported %s" % r.violation)
+    ctx.cov["checker_cmd"].append("tlc -dump -config %s %s" % (cfg, module))
+    fn = dump + ".dump"
+    text = open(fn).read()
+    os.remove(fn)
+    hs = list(_HDR.finditer(text))
+    allp = {}
+    for i, m in enumerate(hs):
+        body = text[m.end(): hs[i + 1].start() if i + 1 < len(hs) else len(text)]
+        path = _tla_to_json(_conjunct(body, "hist"))
+        extra = {"cfg": _tla_to_json(_conjunct(body, "cfg"))}
+        key = _json.dumps([extra, [[s["act"], s["args"]] for s in path]], sort_keys=True)
+        allp[key] = (extra, path)
+    parents = set()
+    for key, (extra, path) in allp.items():
+        if path:
+            parents.add(_json.dumps([extra, [[s["act"], s["args"]] for s in path[:-1]]], sort_keys=True))
+    out = [allp[k] for k in sorted(allp) if k not in parents and len(allp[k][1]) > 0]
+    ctx.cov["gen_runs"] = ctx.cov.get("gen_runs", []) + [
+        {"module": module, "cfg": cfg, "overrides": framework.canon(overrides or {}), "states": r.distinct,
+         "all_paths": len(allp), "maximal_paths": len(out), "wall_s": round(r.wall_s, 2)}]
+    return out
+
+
+# ------------------------------------------------------------------ seeded random drivers (code -> spec)
+
+def encode_status(st):
+    """Raw wait status handed to the code for abstract status st by the *random* drivers
+    (TLC-generated behaviours carry their own).  Every recorded event is checked by the trace
+    specs against WaitStatus!Encode, so this function is itself validated by TLC on each use."""
+    if st < 1000:
+        return st << 8
+    return (st % 1000) | (0x80 if st >= 2000 else 0)
+
+
+def random_status(rng):
+    r = rng.random()
+    if r < 0.40:
+        return 0
+    if r < 0.70:
+        return rng.choice([1, 2, 3, 127, 128, 137, 254, 255, rng.randrange(1, 256)])
+    s = rng.choice([1, 2, 3, 6, 9, 11, 13, 14, 15, rng.randrange(1, 65)])
+    return (2000 if rng.random() < 0.25 else 1000) + s
+
+
+def random_supervisor_trace(job):
+    """One recorded run of the real fork_processes under a seeded random environment."""
+    import random
+    tid, seed, maxn, maxpid, maxlen = job
+    rng = random.Random(seed)
+    r = rng.random()
+    if r < 0.70:
+        cfg = {"n": rng.randrange(1, maxn + 1), "cpus": 1}
+    else:
+        cfg = {"n": rng.choice([0, -1, -3, NO_N]), "cpus": rng.randrange(1, maxn + 1)}
+    r = rng.random()
+    cfg["budget"] = (rng.choice([0, 1, 2, 3]) if r < 0.55 else rng.choice([4, 6, 10]) if r < 0.85
+                     else NO_BUDGET if r < 0.95 else -1)
+    if cfg["budget"] == NO_BUDGET:
+        maxlen = max(maxlen, 400)
+    p_child = rng.choice([0.0, 0.03, 0.1])
+    p_normal_bias = rng.choice([0.0, 0.0, 0.5])     # some runs mostly end normally (reach sys.exit(0))
+    live, pool = [], []
+    nxt = [1]
+    ev = []
+
+    def responder(kind, k):
+        if k >= maxlen:
+            raise ScriptEnd()
+        if kind == "fork":
+            if rng.random() < p_child:
+                ev.append({"a": "fork_child", "args": []})
+                return ("child",)
+            free = [p for p in pool if p not in live]
+            if (free and rng.random() < 0.5) or nxt[0] > maxpid:
+                p = rng.choice(free)
+                pool.remove(p)
+            else:
+                p = nxt[0]
+                nxt[0] += 1
+            live.append(p)
+            ev.append({"a": "fork_parent", "args": [p]})
+            return ("parent", p)
+        if live and rng.random() < 0.85:
+            p = rng.choice(live)
+            live.remove(p)
+            pool.append(p)
+        else:
+            cand = [q for q in pool if q not in live] + [min(nxt[0], maxpid)]
+            cand = [q for q in cand if q not in live]
+            if not cand:
+                raise ScriptEnd()
+            p = rng.choice(cand)
+        st = 0 if rng.random() < p_normal_bias else random_status(rng)
+        raw = encode_status(st)
+        ev.append({"a": "wait", "args": [p, st, raw]})
+        return (p, raw)
+
+    obs = run_supervisor(cfg, responder)
+    for o in obs:
+        o.pop("errclass", None)
+    events = [{"a": "init", "args": [], "obs": obs[0]}]
+    for e, o in zip(ev, obs[1:]):      # an answer whose effect was not observed (run cut) is dropped
+        e["obs"] = o
+        events.append(e)
+    return {"id": tid, "cfg": cfg, "ev": events}
+
+
+def random_subprocess_trace(job):
+    """One recorded run of real Subprocess objects under a seeded random schedule of exits,
+    registrations, SIGCHLD deliveries, cancellations and (un)initialize calls."""
+    import random
+    import signal
+    tid, seed, maxc, length = job
+    rng = random.Random(seed)
+    nc = rng.randrange(1, maxc + 1)
+    cfg = {"nc": nc}
+    real = SubReal(cfg, maxc)
+    try:
+        ev = [{"a": "init", "args": [], "obs": real.step("init", [])}]
+        registered = set()
+        p_ext = rng.choice([0.0, 0.0, 0.08])
+        for _ in range(length):
+            running = [c for c in range(1, nc + 1) if real.kernel.state[real.subs[c].pid] == "running"]
+            unreg = [c for c in range(1, nc + 1) if c not in registered]
+            pend = [c for c, f in real.futs.items() if not f.done()]
+            installed = signal.SIGCHLD in real.handlers
+            choices = []
+            if running:
+                choices += ["exit"] * 4
+            if unreg:
+                choices += ["register"] * 4
+            if installed:
+                choices += ["sigchld"] * 3
+            if pend:
+                choices += ["cancel"]
+            if rng.random() < p_ext:
+                choices = ["uninitialize" if installed else "initialize"]
+            if not choices:
+                break
+            a = rng.choice(choices)
+            if a == "exit":
+                st = random_status(rng)
+                args = [rng.choice(running), st, encode_status(st)]
+            elif a == "register":
+                c = rng.choice(unreg)
+                registered.add(c)
+                args = [c, rng.choice(["cb", "wr", "wn"])]
+            elif a == "cancel":
+                args = [rng.choice(pend)]
+            else:
+                args = []
+            ev.append({"a": a, "args": args, "obs": real.step(a, args)})
+        return {"id": tid, "cfg": cfg, "ev": ev}
     finally:
         real.close()
